@@ -59,6 +59,7 @@ class NDesc(object):
         self.script = {}
         self.history = []       # event ids
         self.cb_slot = {}
+        self.on_final = []      # Machine.on_final (nodes may carry 'final' / 'on_final'; absent = False / [])
 
     # -- traversal ----------------------------------------------------------------------------
     def walk(self):
@@ -126,6 +127,27 @@ class NDesc(object):
         for l in (self.prepare_event, self.before_sc, self.after_sc, self.finalize, self.on_exception):
             o += _l(l)
         return o + [int(bool(self.ignore)), int(self.queued)] + _l(self.initial)
+
+    # extended form (mirror of `ncfg4` in lean/Handlers/HC04N.lean): final flags and on_final lists
+    @classmethod
+    def enc_forest4(cls, nodes):
+        o = [len(nodes)]
+        for n in nodes:
+            o += [n['name']] + _l(n['on_enter']) + _l(n['on_exit'])
+            o += [0 if n['ignore'] is None else (2 if n['ignore'] else 1)]
+            o += _l(n['initial']) + cls.enc_events(n['local'])
+            o += [int(bool(n.get('final')))] + _l(n.get('on_final', []))
+            o += cls.enc_forest4(n['children'])
+        return o
+
+    def enc_cfg4(self):
+        o = self.enc_forest4(self.roots) + self.enc_events(self.events)
+        for l in (self.prepare_event, self.before_sc, self.after_sc, self.finalize, self.on_exception):
+            o += _l(l)
+        return o + [int(bool(self.ignore)), int(self.queued)] + _l(self.initial) + _l(self.on_final)
+
+    def enc_case4(self):
+        return self.enc_cfg4() + self.enc_script() + _l(self.history)
 
     def enc_script(self):
         o = [len(self.script)]
@@ -479,6 +501,10 @@ class NestedRun(object):
         path = tuple(pre) + (n['name'],)
         nd = {'name': (self.member[path] if self.enum else seg(n['name'])), 'on_enter': self.names(n['on_enter']), 'on_exit': self.names(n['on_exit']),
               'ignore_invalid_triggers': n['ignore']}
+        if n.get('final'):
+            nd['final'] = True
+        if n.get('on_final'):
+            nd['on_final'] = self.names(n['on_final'])
         local = [self.trans_def(ev, t, path) for ev, ts in n['local'] for t in ts]
         if local:
             nd['transitions'] = local
@@ -504,6 +530,8 @@ class NestedRun(object):
                   before_state_change=self.names(d.before_sc), after_state_change=self.names(d.after_sc),
                   prepare_event=self.names(d.prepare_event), finalize_event=self.names(d.finalize),
                   on_exception=self.names(d.on_exception))
+        if getattr(d, 'on_final', None):
+            kw['on_final'] = self.names(d.on_final)
         kw.update(extra)
         return cls(**kw)
 
@@ -544,8 +572,9 @@ class NestedRun(object):
         if out[0] == 'ret':
             self.items.append(('done', cid, 0, int(bool(out[1])), 0))
             return out[1]
-        self.items.append(('done', cid, 1, out[1], out[2]))
-        raise flat.make_exc(out[1], out[2])
+        exc = flat.make_exc(out[1], out[2])
+        self.items.append(('done', cid, 1) + flat.canon_exc(exc))     # builtin kinds are recorded canonically
+        raise exc
 
     def invoke(self, model, slot, cid, *args, **kwargs):
         cmds, out = self._begin(model, slot, cid, args, kwargs)
